@@ -41,6 +41,9 @@ type Case struct {
 
 func payload(n, seed int) []byte {
 	b := make([]byte, n)
+	if seed%16 == 5 {
+		return b // an object of zero bytes is an object like any other (deleted space is zeroed too: the id tells them apart)
+	}
 	x := uint32(seed)*2654435761 + 12345
 	for i := range b {
 		x = x*1664525 + 1013904223
@@ -329,7 +332,11 @@ func run(c Case) vt.Verdict {
 				}
 			}
 		}
-		// (3) load into a fresh heap and continue the history with it
+		// (3) load into a fresh heap and continue the history with it - or, after an in-place write, keep working with the same
+		// in-memory heap half of the time (what is written next must again be the whole current state)
+		if inPlace && op.Seed%2 == 1 {
+			return nil
+		}
 		nh := structures.NewWritableFractalHeap(c.BlockSize)
 		if err := nh.LoadFromFile(file, hdrAddr, sb); err != nil {
 			v := fail(step, op, "LoadFromFile of a freshly written heap: %v", err)
